@@ -1014,7 +1014,9 @@ func main() {
 	handlerPhase()
 	cachePhase()
 	cacheConcurrentPhase()
-	run.Rule("(a) every sequence of per-attempt outcomes (15 outcomes incl. 5xx, refused, timeout, truncated reply, retryable/permanent/key-usage token errors, malformed replies; restricted to ok+transient beyond the third attempt) up to the configured limit x caller cancel/deadline before the call, during every attempt and during every back-off, executed on the real retry loop in virtual time; (b) every scripted token error class x {getKey, sign} through the real worker RPC handler, and 7 cookie variants x 3 RPC paths; (c) BFS to fixpoint over key-cache histories (get, get pinned id1/id2, half/whole expiry, rotate, token failing on/off); (d) 6 scenarios of 2-3 threads looking one key name up through the same cache at once (pinned and unpinned callers, cold / warm / expired entry), every interleaving of the hooked lock and token operations up to 2 (thorough 4) preemptions, threads blocked on unhooked primitives followed by the scheduler's monitor. distinct_nontrivial = histories with >=2 attempts or a cancellation, plus handler/cookie/cache cases")
+	transportPhase()
+	ratePhase()
+	run.Rule("(f) a token with a rate limit whose burst is used up: a queued getKey / SignContext whose caller is cancelled or runs into its deadline during the wait (virtual waits are interrupted synchronously, a wait on the real clock after 30 ms) ends with the caller's error and the token is not used for it; (e) the retry loop over the real HTTP transport against a loopback stand-in worker that counts arrivals: every sequence of per-arrival answers {ok, 503, request read and connection dropped} of length = configured attempts (1..3) x connection {fresh, warm}: arrivals <= configured attempts, every arrival after the first preceded by a back-off wait of the loop, success only if an arrival was answered ok; (a) every sequence of per-attempt outcomes (15 outcomes incl. 5xx, refused, timeout, truncated reply, retryable/permanent/key-usage token errors, malformed replies; restricted to ok+transient beyond the third attempt) up to the configured limit x caller cancel/deadline before the call, during every attempt and during every back-off, executed on the real retry loop in virtual time; (b) every scripted token error class x {getKey, sign} through the real worker RPC handler, and 7 cookie variants x 3 RPC paths; (c) BFS to fixpoint over key-cache histories (get, get pinned id1/id2, half/whole expiry, rotate, token failing on/off); (d) 6 scenarios of 2-3 threads looking one key name up through the same cache at once (pinned and unpinned callers, cold / warm / expired entry), every interleaving of the hooked lock and token operations up to 2 (thorough 4) preemptions, threads blocked on unhooked primitives followed by the scheduler's monitor. distinct_nontrivial = histories with >=2 attempts or a cancellation, plus handler/cookie/cache cases")
 	run.Assume("the transient set is {HTTP 500,502,503,504, connection refused, per-attempt timeout, truncated reply, token error flagged retryable}; HTTP 4xx, malformed replies, non-retryable and key-usage token errors are permanent")
 	run.Assume("back-off is judged for shape only (one positive, non-decreasing delay before every retry, below 5 minutes), not for its exact constants")
 	run.Assume("an unclassified plain token error may be treated either way by the RPC handler")
